@@ -20,6 +20,17 @@ void harness (void)
     int c = in_c;
     pixman_bool_t ret;
 
+#ifdef VC_NARROW
+    /* bounded operand widths (the remainder by a symbolic 31-bit size does not finish): c in [-2^17, 2^17), size < 2^VC_NARROW;
+     * built by masking so that the high bits are constants for the bit-level encoding */
+    in_c = (in_c & 0x3ffff) - 0x20000;
+    in_size = in_size & ((1 << VC_NARROW) - 1);
+    c = in_c;
+#endif
+#ifdef VC_SIZEFIX
+    /* bounded stand-in: one fixed size per query (constant divisor), every coordinate */
+    in_size = VC_SIZEFIX;
+#endif
     VH_ASSUME (in_size >= 1);
 
 #if VC_MODE == 0
@@ -45,6 +56,7 @@ void harness (void)
     VH_CHECK ("repeat.reflect.returns_true", ret == TRUE);
     VH_CHECK ("repeat.reflect.in_range", SS_INSIDE (c, in_size));
     VH_CHECK ("repeat.reflect.mirror_period_2size", SS_IS_REFLECT (in_c, in_size, c));
+    VH_CHECK ("repeat.reflect.equals_functional_map", c == ss_repeat_map (SS_REFLECT, in_c, in_size));
 #elif VC_MODE == 4
     {
         int m;
